@@ -19,11 +19,27 @@ PROPS = {
              trusted=["ld.GetCanonicalDouble / strconv.ParseFloat (oracle column `canon`)",
                       "big.Rat.SetString beyond the modelled decimal grammar (base prefixes, '_', binary exponents, a/b) and the lenient fallback of time.Parse are outside the model and not generated"],
              assumptions=["prime p odd and >= 3 for the range theorems", "time_inj needs p > 4*10^20 (true of BN254)"]),
+    "C01": P("cases = (a) generated abstract documents rendered to JSON-LD (random context: type- and property-scoped contexts, prefixes, typed/untyped literals, "
+             "arrays of literals/IRIs/blank and IRI-identified objects, named-graph containers) merklized for real under 5 hashers, and (b) generated RDF datasets "
+             "(forests and arbitrary quad sets incl. multi-parent, cycles, dangling blanks, graph mismatches) given to EntriesFromRDFWithHasher; "
+             "non-trivial = a document with a multi-valued property or nesting depth >= 2, or any dataset case; distinct = distinct (op,input) hashes",
+             shards=(8, 16), n=(40, 600),
+             trusted=["json-gold expansion / URDNA2015 normalisation (document -> dataset): correspondence only; the harness checks the entries against the abstract document's facts",
+                      "go-merkletree-sql (modelled in Gsp.Smt, differentially tested)"]),
 }
 
 NOT_APPLICABLE = {}
 
 MANIFEST_TEXT = {
+    "C01": dict(
+        text="Lean theorems about the model of EntriesFromRDFWithHasher (Gsp.Rdf): a successful run yields exactly one entry per literal/IRI quad, in order, with the value decoded "
+             "according to its datatype (entries_complete, goEntries_values: nothing dropped, duplicated or invented); reference cycles make the bounded parent walk return an error for every "
+             "fuel (cycle_rejected, walk_ok_chain_ends); a subject referenced twice in its graph makes findParent and hence the relationship fail (multi_parent_findParent, relGraph_error). "
+             "Tie: the real EntriesFromRDFWithHasher / MerklizeJSONLD and the model are run on the same datasets (entries compared in order, roots compared under 5 hashers with Lean's own Poseidon "
+             "and sparse Merkle tree); direct predicates on the implementation: entries == facts of the abstract document (indices erased), sibling indices exactly 0..n-1, no index on single-valued "
+             "properties, leaf count == entry count == merklizer map size, multi-referenced subjects rejected, no hang/panic.",
+        note="Document -> dataset (json-gold) is not modelled; it is covered by the facts predicate against the abstract document. Index exactness and path-chain theorems are stated in DESIGN.md and "
+             "currently covered by the correspondence + direct predicate (see DESIGN.md section 6, C01 status)."),
     "C04": dict(
         text="Lean theorems about the XSD value model (Gsp.Xsd): the code's integer ranges equal the statement's table for every odd prime (range_is_table), "
              "acceptance iff in range (int_accept_iff), encoding v / p+v never reduced and below p (int_enc), injectivity on every range (int_inj), "
